@@ -67,10 +67,11 @@ class WatchWorld(VfsWorld):
 
 # ---------------------------------------------------------------------------------------------------- C15
 TREE = ['/p/src', '/p/src/a.rs', '/p/src/.rs', '/p/src/b.tar.gz', '/p/src/rs', '/p/src/' + BAD + '.rs', '/p/src/sub', '/p/src/sub/c.rs',
-        '/p/src/.zinoma', '/p/src/.zinoma/d.rs', '/p/src/sub/.zinoma', '/p/one.rs', '/p/missing']
+        '/p/src/.zinoma', '/p/src/.zinoma/d.rs', '/p/src/sub/.zinoma', '/p/src/sub/.zinoma/e.rs', '/p/one.rs', '/p/missing']
 DECLS = [
     ('no_filter', [(['/p/src'], None)]),
-    ('single_ext', [(['/p/src', '/p/one.rs', '/p/missing'], ['.rs'])]),
+    ('single_ext', [(['/p/src'], ['.rs'])]),
+    ('file_and_missing_roots', [(['/p/one.rs', '/p/missing'], ['.rs'])]),
     ('multi_dot_ext', [(['/p/src'], ['.tar.gz', '.rs'])]),
     ('two_resources', [(['/p/src/sub'], None), (['/p/src'], ['.gz'])]),
 ]
@@ -82,7 +83,9 @@ def c15_explore(arg):
     out = {'case': name, 'error': None, 'obligations': [], 'paths': 0, 'functions': []}
     try:
         prog = Program(repo)
-        world = VfsWorld(TREE, always_dirs=('/', '/p'))
+        roots = [r for ps, e in decl for r in ps]
+        tree = [p for p in TREE if any(p == r or p.startswith(r.rstrip('/') + '/') for r in roots)]
+        world = VfsWorld(tree, always_dirs=('/', '/p'))
         I = Interp(prog, world, stubs={}, max_paths=40000)
         fd = prog.find_fn('fs::list_files_in_resources')
 
@@ -122,7 +125,7 @@ def c15_explore(arg):
             if not isinstance(v, RSet):
                 raise Unsupported('listing returned %r' % (v,))
             got = {k: g for k, (g, x) in v.entries.items()}
-            for q in set(TREE) | set(got):
+            for q in set(tree) | set(got):
                 want = spec.get(q, z3.BoolVal(False))
                 have = got.get(q, False)
                 hz = z3.BoolVal(have) if isinstance(have, bool) else have
@@ -133,6 +136,7 @@ def c15_explore(arg):
                     res['verdict'] = 'sat'
                     m = s.model()
                     res['detail'] = '%r %s listed by the code, reference says %s' % (q, 'is' if z3.is_true(m.eval(hz, model_completion=True)) else 'is not', z3.is_true(m.eval(want, model_completion=True)))
+                    res['file'] = q
                     res['world'] = decode(world, m)
                 elif r == z3.unknown and res['verdict'] == 'unsat':
                     res['verdict'] = 'unknown'
@@ -169,7 +173,7 @@ def c15_transform_extensions(prog):
     return {'name': 'extensions_are_dot_normalised', 'verdict': 'sat' if bad else 'unsat', 'checked_paths': len(cases), 'detail': bad[:2]}
 
 
-def native_listing(decl, world, repo):
+def native_listing(decl, world, repo, probe=None):
     """Real code, real tree: which files make a target re-run when rewritten = the files the resource denotes."""
     binpath, info = build_native(repo)
     root = tempfile.mkdtemp(prefix='zx-list-', dir=os.environ.get('VERIF_SCRATCH', '/var/tmp'))
@@ -191,7 +195,7 @@ def native_listing(decl, world, repo):
         r = run_native(binpath, root + '/p', ['t'], None, timeout=60)
         denoted = []
         for p in sorted(world):
-            if world[p] != 'file':
+            if world[p] != 'file' or (probe is not None and p not in probe):
                 continue
             real = (root + p).encode('utf-8', 'surrogateescape')
             if not os.path.isfile(real):
@@ -422,8 +426,9 @@ def run(prop, tier, seed, repo, jobs):
                 nat = ref = None
                 if decl is not None and 'world' in ob:
                     try:
-                        nat = native_listing(decl, ob['world'], repo)
-                        ref = reference_listing(decl, ob['world'])
+                        probe = [ob['file']] if ob.get('file') else None
+                        nat = native_listing(decl, ob['world'], repo, probe)
+                        ref = [x for x in reference_listing(decl, ob['world']) if probe is None or x in probe]
                         confirmed = nat != ref
                     except Exception as ex:   # pragma: no cover
                         nat = [str(ex)]
@@ -438,9 +443,10 @@ def run(prop, tier, seed, repo, jobs):
         try:
             # (a file whose name is not UTF-8 makes the record unstorable -- serde refuses the path -- so it is left out here)
             world = {p: ('dir' if p in ('/p/src', '/p/src/sub', '/p/src/.zinoma', '/p/src/sub/.zinoma') else ('absent' if (p == '/p/missing' or BAD in p) else 'file')) for p in TREE}
+            probe = ['/p/src/a.rs', '/p/src/.zinoma/d.rs', '/p/src/b.tar.gz', '/p/src/.rs']
             for n, d in DECLS[:2]:
-                nat = native_listing(d, world, repo)
-                ref = reference_listing(d, world)
+                nat = native_listing(d, world, repo, probe)
+                ref = [x for x in reference_listing(d, world) if x in probe]
                 if nat != ref:
                     inconclusive.append('reference listing and real code disagree on the validation tree (%s): real %s, reference %s' % (n, nat, ref))
                 else:
